@@ -1,6 +1,7 @@
 CONSTANTS
   MaxSteps = 24
   MaxLen = 7
+  PasteExec = FALSE
   Orig = FALSE
 SPECIFICATION Spec
 INVARIANTS CursorInside Conform WordCmdsConform WordSane
